@@ -8,7 +8,8 @@ CONSTANTS
   MaxBuf = 3
   RawChoices = {FALSE, TRUE}
   DevIgnoredWrite = FALSE
+  DevMutatesDoc = FALSE
   Emit = FALSE
 INVARIANTS TypeOK Accounting Prefix ChunkFree ErrSurfaces NoSpurious Later Refines CounterInv
-PROPERTIES Accounted Retry RetrySink
+PROPERTIES DocUnchanged Accounted Retry RetrySink
 CHECK_DEADLOCK FALSE
